@@ -63,6 +63,7 @@ class Ctx:
         i = len(self.trace)
         if i < len(self.prefix):
             d, alt = self.prefix[i]
+            assert d is True or d is False, 'non-deterministic harness: branch replay mismatch'
             self.trace.append((d, alt))
             self.solver.add(cond if d else z3.Not(cond))
             return d
@@ -78,6 +79,20 @@ class Ctx:
             return False
         self.aborted = True
         raise Abort()
+
+    def choose(self, var, n):
+        """n-ary case split on a fresh variable ranging over 0..n-1 (every value is feasible,
+        so no solver query is needed).  Trace entry: ('c', k, n)."""
+        i = len(self.trace)
+        if i < len(self.prefix):
+            ent = self.prefix[i]
+            assert ent[0] == 'c' and ent[2] == n, 'non-deterministic harness: choice replay mismatch'
+            k = ent[1]
+        else:
+            k = 0
+        self.trace.append(('c', k, n))
+        self.solver.add(var == k)
+        return k
 
     def assume(self, cond):
         cond = zb(cond)
@@ -409,11 +424,13 @@ class SymbolicInput:
 
     def choice(self, name, n):
         """bounded int 0..n-1, case-split immediately (shape dimension)"""
-        return self.int(name, 0, n - 1).concretize()
+        v = self._declare(name, z3.Int(name))
+        return self.c.choose(v, n)
 
     def flag(self, name):
         """boolean, case-split immediately"""
-        return bool(self.bool(name))
+        v = self._declare(name, z3.Int(name))
+        return self.c.choose(v, 2) == 1
 
     def assume(self, cond):
         self.c.assume(cond)
@@ -450,7 +467,7 @@ class ConcreteInput:
         return int(self._get(name, 0))
 
     def flag(self, name):
-        return bool(self._get(name, False))
+        return bool(self._get(name, 0))
 
     def assume(self, cond):
         if not cond:
@@ -488,6 +505,12 @@ class PathResult:
         self.value, self.ctx, self.exc = value, c, exc
 
 
+def _open(ent):
+    if ent[0] == 'c':
+        return ent[1] + 1 < ent[2]
+    return ent[0] is True and ent[1]
+
+
 def explore(fn, max_paths=200000, deadline=None):
     """Run fn(ctx) under every feasible path; yields PathResult for completed paths.
     Raises Inconclusive when the path budget or the deadline is exhausted."""
@@ -512,7 +535,7 @@ def explore(fn, max_paths=200000, deadline=None):
             finally:
                 CTX = None
         tr = c.trace
-        while tr and not (tr[-1][0] is True and tr[-1][1]):
+        while tr and not _open(tr[-1]):
             tr.pop()
         if not tr:
             return
@@ -520,7 +543,8 @@ def explore(fn, max_paths=200000, deadline=None):
             raise Inconclusive('path budget %d exhausted' % max_paths)
         if deadline is not None and time.time() > deadline:
             raise Inconclusive('time budget exhausted after %d paths' % n)
-        prefix = tr[:-1] + [(False, False)]
+        last = tr[-1]
+        prefix = tr[:-1] + [('c', last[1] + 1, last[2]) if last[0] == 'c' else (False, False)]
 
 
 def run_concrete(fn, values):
